@@ -195,29 +195,27 @@ def rule_ts_zipfile(facts, rep):
     okall &= good
     rep.check(good, rule, "K-writers", "", "fields reader/crypto_reader are written or mutably borrowed only in %s" % sorted(names),
               "unexpected function(s) mutate ZipFile.reader / ZipFile.crypto_reader: %s" % extra)
-    # (3) preservation in the two lazy builders: take() only under reader == NoReader, and every path from the take to a
-    #     return assigns self.reader
+    # (3) preservation in the two lazy builders (path enumeration): the crypto reader is taken only on paths that saw
+    #     reader == NoReader, and every such path that returns has re-assigned self.reader
+    from engine.paths import paths as _paths, decided as _decided, called as _called
     for nm in ("get_reader", "get_raw_reader"):
         f = facts.one(r"^read::ZipFile::<'a>::%s$" % nm)
-        exf = Ex(f)
-        takes = [(bi, t) for bi, t in f.calls() if callee_matches(t, r"Option::<T>::take$", r"mem::(replace|take)$")]
-        if not takes:
+        assign_blocks = {b_ for b_, si_, s_ in f.stmts() if s_["k"] == "assign" and [p_ for p_ in s_["place"]["p"] if p_["k"] == "field"][-1:] and
+                         [p_ for p_ in s_["place"]["p"] if p_["k"] == "field"][-1]["n"] == "reader"}
+        ps_ = _paths(f)
+        taking = [p_ for p_ in ps_ if _called(p_, r"Option::<T>::take$|mem::(replace|take)$")]
+        if not taking:
             raise AnchorLost("no take() in %s" % nm)
-        for bi, t in takes:
-            fs = dominating_facts(f, exf, bi)
-            guarded = any(x[0] == "Eq" and x[1][0] == "discr" and x[1][1][0] == "field" and x[1][1][2] == "reader" and x[2][2] == 0
-                          for x in fs)
-            assign_blocks = {b for b, si, s in f.stmts() if s["k"] == "assign" and s["place"]["p"] and
-                             [p for p in s["place"]["p"] if p["k"] == "field"][-1:] and
-                             [p for p in s["place"]["p"] if p["k"] == "field"][-1]["n"] == "reader"}
-            escapes = [e for e in f.exits() if e in f.reach_from_inclusive(bi, avoid=assign_blocks)]
-            good = guarded and not escapes and assign_blocks
-            okall &= bool(good)
-            rep.check(bool(good), rule, "K-preserve:%s" % nm, where(f, t["span"]),
-                      "crypto reader taken only when reader == NoReader; every path to the return re-assigns self.reader",
-                      "in %s the crypto reader is taken %s and %s" % (
-                          nm, "under the NoReader guard" if guarded else "WITHOUT the reader == NoReader guard",
-                          "a return is reachable without assigning self.reader" if escapes else "reader is re-assigned"))
+        guarded = all(_decided(p_, r"^discr\(self\.reader\)$") == 0 for p_ in taking)
+        reassigned = all(p_["end"] != "return" or (set(p_["blocks"]) & assign_blocks) for p_ in taking)
+        idle = all(not (set(p_["blocks"]) & assign_blocks) for p_ in ps_ if p_ not in taking)
+        good = guarded and reassigned and idle
+        okall &= bool(good)
+        rep.check(bool(good), rule, "K-preserve:%s" % nm, where(f, f.span),
+                  "crypto reader taken only when reader == NoReader; every returning path re-assigns self.reader; other paths leave it alone",
+                  "in %s the crypto reader is taken %s and %s" % (
+                      nm, "under the NoReader guard" if guarded else "WITHOUT the reader == NoReader guard",
+                      "reader is re-assigned" if reassigned else "a return is reachable without assigning self.reader"))
     rep.floor(rule, 6)
     return okall
 
